@@ -23,13 +23,13 @@ DEFAULT = dict(level="exploration", quick_shards=8, quick_checks=4000, thorough_
                thorough_checks=60000, thorough_rounds=40, race=False, race_thorough=False,
                enum=False, fuzz=[], hang_s=10, quick_enum=True)
 PROPS = {
-    "C01": dict(quick_checks=8000),
+    "C01": dict(quick_checks=8000, enum=True),
     "C02": dict(quick_checks=2500, thorough_checks=20000, enum=True),
     "C03": dict(quick_checks=12000, thorough_checks=100000, enum=True, fuzz=["FuzzC03JSON", "FuzzC03CBOR", "FuzzC03UBJSON"]),
     "C04": dict(quick_checks=8000),
     "C05": dict(quick_checks=8000, enum=True, fuzz=["FuzzC05"]),
     "C06": dict(quick_checks=8000, fuzz=["FuzzC06"]),
-    "C07": dict(quick_checks=8000),
+    "C07": dict(quick_checks=8000, enum=True),
     "C08": dict(quick_checks=2500, thorough_checks=20000),
     "C09": dict(quick_checks=4000, thorough_checks=30000, enum=True),
     "C10": dict(quick_checks=4000, enum=True),
